@@ -257,7 +257,7 @@ def toyCfg (follow : Bool) : Cfg := { root := [[114]], follow := follow, showInd
 /-- evaluate the model on the toy tree by rewriting with its defining equations (`walk` is
 defined by well-founded recursion, which `decide` cannot unfold) -/
 macro "toy_eval" : tactic => `(tactic|
-  simp [serve, resolvePath, toyCfg, pathSegs, splitSlash, SLASH, DOT, DOTDOT, realpath, follow, walk, hasNul,
+  simp [serve, serveG, resolvePathG, isFixpoint, Gen.C15.resolveFixpointCheck, toyCfg, pathSegs, splitSlash, SLASH, DOT, DOTDOT, realpath, follow, walk, hasNul,
     toyFs, tableFs, itemNames, lexNorm, statF, fileTarget, sibling, asciiLower, findSub, isPrefix,
     Gen.C15.encodingExtensions, osLstat, withExt])
 
@@ -271,25 +271,49 @@ nowhere, so `stat` there is `lstat` there. -/
 theorem stat_of_resolved (fs : Fs) (fuel : Nat) (p : Path) (h : Resolved fs p) (hn : NormalPath p) :
     follow fs fuel p = .ok p := follow_of_resolved fs fuel p h hn
 
-/- Full statement (FALSE on the unchanged code under Python < 3.13, see `f21_symlink_loop_escapes_root`):
-   the same without `hnoloop`. -/
-/-- **Confinement without follow_symlinks.**  For every file system, root directory, request
-file name and Accept-Encoding: if the route serves a file at all, the bytes come from a
-location `p` that is inside the root (component-wise), contains no symbolic link at any level
-(so `p` *is* the real location), and is a regular file there — also when a pre-compressed
-sibling is chosen.  Missing for the full statement: `hnoloop`, i.e. resolving the joined path
-did not run into a symlink loop (then `Path.resolve` returns a half-resolved path, finding F21). -/
-theorem confined_partial (fs : Fs) (fuel : Nat) (cfg : Cfg) (filename ae : Str) (p : Path) (id : Nat)
+/-- the F21 repair is present in the source as it is now (`generate()` probes
+`_resolve_path_to_response` on every run; removing the check breaks this proof and `confined`) -/
+theorem fixpoint_check_present : Gen.C15.resolveFixpointCheck = true := by decide
+
+/-- **Confinement, independent of the repair.**  For every file system, root, file name and
+Accept-Encoding, with or without the fixpoint check: if resolving the joined path did not run
+into a symlink loop (`hnoloop`), whatever the route serves without follow_symlinks comes from a
+location inside the root with no symbolic link at any level, and is a regular file there. -/
+theorem confined_partial (fix : Bool) (fs : Fs) (fuel : Nat) (cfg : Cfg) (filename ae : Str) (p : Path) (id : Nat)
     (enc : Option Str) (hfollow : cfg.follow = false) (hroot : fs.lstat cfg.root = .dir)
     (hnoloop : ∀ pp, follow fs fuel (cfg.root ++ pathSegs filename) ≠ .loop pp)
+    (h : serveG fix fs fuel cfg filename ae = .file p id enc) :
+    cfg.root <+: p ∧ Resolved fs p ∧ fs.lstat p = .file id := by
+  unfold serveG at h
+  split at h
+  · next o ho => exact absurd h (resolvePath_inl_not_file fix fs fuel cfg filename o ho p id enc)
+  · next p' hp' =>
+    obtain ⟨hrp, hpre, hnd, _⟩ := resolvePath_inr_nofollow fix fs fuel cfg filename p' hfollow hp'
+    have hf := realpath_noloop fs fuel _ _ hnoloop hrp
+    obtain ⟨hres, hnorm⟩ := follow_resolved fs fuel _ _ hf
+    exact fileTarget_confined fs fuel cfg.root p' _ p id enc hroot
+      (List.isPrefixOf_iff_prefix.mp hpre) hres hnorm hnd h
+
+/-- **Confinement without follow_symlinks (full statement, for the code as it is now).**
+For every file system `fs` (any function from paths to `lstat` results — loops, dangling and
+crossing links included), every root that is a directory, every request file name and
+Accept-Encoding: if the static route serves a file at all, the bytes come from a location `p`
+that is inside the root (component-wise), contains no symbolic link at any level (so `p` *is*
+the real location), and is a regular file there — also when a pre-compressed sibling is chosen.
+No hypothesis about loops: the fixpoint check makes `Path.resolve()`'s half-resolved answers
+unreachable. -/
+theorem confined (fs : Fs) (fuel : Nat) (cfg : Cfg) (filename ae : Str) (p : Path) (id : Nat)
+    (enc : Option Str) (hfollow : cfg.follow = false) (hroot : fs.lstat cfg.root = .dir)
     (h : serve fs fuel cfg filename ae = .file p id enc) :
     cfg.root <+: p ∧ Resolved fs p ∧ fs.lstat p = .file id := by
   unfold serve at h
+  rw [fixpoint_check_present] at h
+  unfold serveG at h
   split at h
-  · next o ho => exact absurd h (resolvePath_inl_not_file fs fuel cfg filename o ho p id enc)
+  · next o ho => exact absurd h (resolvePath_inl_not_file true fs fuel cfg filename o ho p id enc)
   · next p' hp' =>
-    obtain ⟨hrp, hpre, hnd⟩ := resolvePath_inr_nofollow fs fuel cfg filename p' hfollow hp'
-    have hf := realpath_noloop fs fuel _ _ hnoloop hrp
+    obtain ⟨_, hpre, hnd, hfix⟩ := resolvePath_inr_nofollow true fs fuel cfg filename p' hfollow hp'
+    have hf := isFixpoint_follow fs fuel p' (hfix rfl)
     obtain ⟨hres, hnorm⟩ := follow_resolved fs fuel _ _ hf
     exact fileTarget_confined fs fuel cfg.root p' _ p id enc hroot
       (List.isPrefixOf_iff_prefix.mp hpre) hres hnorm hnd h
@@ -304,16 +328,18 @@ example : ∀ pp, follow toyFs 8 ((toyCfg false).root ++ pathSegs [97]) ≠ .loo
   intro pp; toy_eval
 
 set_option linter.unusedSimpArgs false in
-/-- **Finding F21 (counterexample to the full statement).**  Root `/r` contains the loop
-`self -> self` and `out -> ../o/s`.  Without follow_symlinks, `out` is refused (404) but
-`self/../out` is served from `/o/s`, outside the root: `Path.resolve()` gives up at the loop,
-returns `/r/self/../out` normalised to `/r/out`, which passes `relative_to(root)` lexically,
-and `FileResponse` then follows the link. -/
+/-- **Finding F21 (why the check is needed): counterexample for the model without it.**  Root
+`/r` contains the loop `self -> self` and `out -> ../o/s`.  Without follow_symlinks, `out` is
+refused (404) but — in the code before the repair (`fix = false`) — `self/../out` is served
+from `/o/s`, outside the root: `Path.resolve()` gives up at the loop, returns `/r/self/../out`
+normalised to `/r/out`, which passes `relative_to(root)` lexically, and `FileResponse` then
+follows the link.  With the check (`fix = true`) the same request is a 404. -/
 theorem f21_symlink_loop_escapes_root :
-    serve toyFs 8 (toyCfg false) [111, 117, 116] [] = .notFound ∧
-    serve toyFs 8 (toyCfg false) [115, 101, 108, 102, 47, 46, 46, 47, 111, 117, 116] [] = .file [[111], [115]] 2 none ∧
-    ¬ ((toyCfg false).root <+: [[111], [115]]) := by
-  refine ⟨by toy_eval, by toy_eval, by decide⟩
+    serveG false toyFs 8 (toyCfg false) [111, 117, 116] [] = .notFound ∧
+    serveG false toyFs 8 (toyCfg false) [115, 101, 108, 102, 47, 46, 46, 47, 111, 117, 116] [] = .file [[111], [115]] 2 none ∧
+    ¬ ((toyCfg false).root <+: [[111], [115]]) ∧
+    serveG true toyFs 8 (toyCfg false) [115, 101, 108, 102, 47, 46, 46, 47, 111, 117, 116] [] = .notFound := by
+  refine ⟨by toy_eval, by toy_eval, by decide, by toy_eval⟩
 
 /-- **With follow_symlinks the request path itself still cannot leave the root**: a file or a
 listing is produced only if the joined path, normalised *lexically* (dot segments removed
@@ -324,13 +350,13 @@ theorem follow_only_via_links (fs : Fs) (fuel : Nat) (cfg : Cfg) (filename ae : 
     (h : (∃ id enc, serve fs fuel cfg filename ae = .file p id enc) ∨
          serve fs fuel cfg filename ae = .listing p) :
     cfg.root <+: lexNorm (cfg.root ++ pathSegs filename) := by
-  unfold serve at h
+  unfold serve serveG at h
   split at h
   · next o ho =>
     rcases h with ⟨id, enc, h⟩ | h
-    · exact absurd h (resolvePath_inl_not_file fs fuel cfg filename o ho p id enc)
+    · exact absurd h (resolvePath_inl_not_file _ fs fuel cfg filename o ho p id enc)
     · subst h
-      unfold resolvePath at ho
+      unfold resolvePathG at ho
       simp only [hfollow, if_true] at ho
       repeat' split at ho
       all_goals cases ho
@@ -338,18 +364,18 @@ theorem follow_only_via_links (fs : Fs) (fuel : Nat) (cfg : Cfg) (filename ae : 
       · exact List.isPrefixOf_iff_prefix.mp hp
       · simp [hp] at *
   · next p' hp' =>
-    exact List.isPrefixOf_iff_prefix.mp (resolvePath_inr_follow fs fuel cfg filename p' hfollow hp').1
+    exact List.isPrefixOf_iff_prefix.mp (resolvePath_inr_follow _ fs fuel cfg filename p' hfollow hp').1
 
 /-- **A directory listing only if enabled** — and only of a directory lexically under the
 root (which, without follow_symlinks and without the F21 loop case, is a resolved path). -/
 theorem listing_only_if_enabled (fs : Fs) (fuel : Nat) (cfg : Cfg) (filename ae : Str) (p : Path)
     (h : serve fs fuel cfg filename ae = .listing p) :
     cfg.showIndex = true ∧ cfg.root <+: p ∧ statF fs fuel p = .dir := by
-  unfold serve at h
+  unfold serve serveG at h
   split at h
   · next o ho =>
     subst h
-    obtain ⟨h1, h2, h3⟩ := resolvePath_listing fs fuel cfg filename p ho
+    obtain ⟨h1, h2, h3⟩ := resolvePath_listing _ fs fuel cfg filename p ho
     exact ⟨h1, List.isPrefixOf_iff_prefix.mp h2, h3⟩
   · next p' _ =>
     unfold fileTarget at h
@@ -370,6 +396,6 @@ theorem sibling_not_followed (fs : Fs) (fuel : Nat) (p' : Path) (ae : Str) (q : 
 404 before the file system is consulted. -/
 theorem absolute_filename_rejected (fs : Fs) (fuel : Nat) (cfg : Cfg) (filename ae : Str)
     (h : filename.head? = some SLASH) : serve fs fuel cfg filename ae = .notFound := by
-  simp [serve, resolvePath, h]
+  simp [serve, serveG, resolvePathG, h]
 
 end Aio.C15
